@@ -287,3 +287,34 @@ def lens_matrix_layout(S):
                 S.claim_eq(f'{nt}x{nph}.S3[{i},{j}]', S3[i, j, 0], ref[0][1])
                 S.claim_eq(f'{nt}x{nph}.S4[{i},{j}]', S4[i, j, 0], ref[1][0])
     S.observe('th', th[0])
+
+
+@obligation('C08.theory_builds_calculator', functions=['holopy.scattering.theory.mielens.MieLens._create_calculator',
+                                                       'holopy.scattering.theory.mielens.AberratedMieLens._create_calculator'],
+            stubs=['MieLensCalculator / AberratedMieLensCalculator (classes) := constructor-argument recorders'],
+            timeout_s=60, nvalid=2,
+            bounds='MieLens and AberratedMieLens built with the same non-default accuracy settings (quad_npts=30, '
+                   'interpolate_integrals=False) and symbolic lens angle, depth, index ratio, size parameter and '
+                   'aberration: both hand the calculator the same arguments and the same accuracy settings, the '
+                   'aberrated one additionally its aberration')
+def theory_builds_calculator(S):
+    mc.setup(S)
+    log = []
+    mc.install_stub_calculator_class(S, log)
+    acc = {'quad_npts': 30, 'interpolate_integrals': False}
+    la = S.real('lens_angle', lo=0.1, hi=1.5)
+    kz, m, x, ab = S.real('kz'), S.real('m', pos=True), S.real('x', pos=True), S.real('aberration')
+    S.observe('x', x)
+    plain = MieLens(lens_angle=la, calculator_accuracy_kwargs=dict(acc))
+    aber = AberratedMieLens(spherical_aberration=ab, lens_angle=la, calculator_accuracy_kwargs=dict(acc))
+    c1 = plain._create_calculator(particle_kz=kz, index_ratio=m, size_parameter=x)
+    c2 = aber._create_calculator(particle_kz=kz, index_ratio=m, size_parameter=x)
+    for tag, c in (('mielens', c1), ('aberrated', c2)):
+        S.claim_eq(f'{tag}.particle_kz', c.particle_kz, kz)
+        S.claim_eq(f'{tag}.index_ratio', c.index_ratio, m)
+        S.claim_eq(f'{tag}.size_parameter', c.size_parameter, x)
+        S.claim_eq(f'{tag}.lens_angle', c.lens_angle, la)
+        S.claim(f'{tag}.accuracy_settings_forwarded', {k: c.kwargs.get(k) for k in acc} == acc)
+    S.claim('mielens.no_aberration_argument', 'spherical_aberration' not in c1.kwargs)
+    S.claim_eq('aberrated.aberration_forwarded', c2.kwargs.get('spherical_aberration', 0.0), ab)
+    S.claim('accuracy_dict_untouched', plain.calculator_accuracy_kwargs == acc and aber.calculator_accuracy_kwargs == acc)
